@@ -163,9 +163,12 @@ func handleSINTER(params internal.HandlerFuncParams) ([]byte, error) {
 
 	var sets []*Set
 
-	for key, exists := range keyExists {
-		if !exists {
-			return []byte("*0\r\n"), nil
+	for _, key := range keys.ReadKeys {
+		if !keyExists[key] {
+			// A missing key is an empty set. Keep going, so that a key
+			// holding another type is reported wherever it appears.
+			sets = append(sets, NewSet([]string{}))
+			continue
 		}
 		set, ok := params.GetValues(params.Context, []string{key})[key].(*Set)
 		if !ok {
@@ -221,9 +224,12 @@ func handleSINTERCARD(params internal.HandlerFuncParams) ([]byte, error) {
 
 	var sets []*Set
 
-	for key, exists := range keyExists {
-		if !exists {
-			return []byte(":0\r\n"), nil
+	for _, key := range keys.ReadKeys {
+		if !keyExists[key] {
+			// A missing key is an empty set. Keep going, so that a key
+			// holding another type is reported wherever it appears.
+			sets = append(sets, NewSet([]string{}))
+			continue
 		}
 		set, ok := params.GetValues(params.Context, []string{key})[key].(*Set)
 		if !ok {
@@ -253,14 +259,12 @@ func handleSINTERSTORE(params internal.HandlerFuncParams) ([]byte, error) {
 
 	var sets []*Set
 
-	for key, exists := range keyExists {
-		if !exists {
-			// A missing key is an empty set, so the intersection is empty:
-			// the destination is replaced with the empty result.
-			if err = params.SetValues(params.Context, map[string]interface{}{destination: NewSet([]string{})}); err != nil {
-				return nil, err
-			}
-			return []byte(":0\r\n"), nil
+	for _, key := range keys.ReadKeys {
+		if !keyExists[key] {
+			// A missing key is an empty set. Keep going, so that a key
+			// holding another type is reported wherever it appears.
+			sets = append(sets, NewSet([]string{}))
+			continue
 		}
 		set, ok := params.GetValues(params.Context, []string{key})[key].(*Set)
 		if !ok {
